@@ -91,6 +91,47 @@ def obligations():
         else:
             good = v[2] == "self.base_kernel" and v[3] == (("var", "X"), inp)
         ob(KernelRIM, "_compute_kernel", f"kernel between X and input_data_, with base_kernel_params forwarded ({v[2]})", good, {"ret": fx.show(v)})
+    # KernelRIM.fit: the wrapper trains the linear model on the kernel of THIS call's data (no state of an earlier fit is reused)
+    sts = fx.Interp(KernelRIM, inline_filter=lambda o, m: False).run_method("fit")
+    rets = [st for st in sts if st.ended == "return"]
+    import inspect
+    hyper = set(inspect.signature(KernelRIM.__init__).parameters)
+
+    def state_names(t, acc):
+        """attributes of self (also through getattr / hasattr with a constant name) a term mentions"""
+        if isinstance(t, tuple):
+            if t[:1] == ("attr",) and len(t) == 3 and t[1] == SELF and isinstance(t[2], str):
+                acc.add(t[2])
+            if t[:1] == ("callres",) and len(t) >= 4 and t[2] in ("getattr", "hasattr") and t[3] and t[3][0] == SELF:
+                acc.update(str(getattr(x, "value", x[1] if isinstance(x, tuple) and len(x) > 1 else x)) for x in t[3][1:2])
+            for x in t:
+                state_names(x, acc)
+        return acc
+    dep = set()
+    for st in rets:
+        for c, _ in st.pc:
+            state_names(c, dep)
+    dep -= hyper
+    ob(KernelRIM, "fit", "the set-up never branches on state left by an earlier fit (only on hyper-parameters and arguments)", bool(rets) and not dep,
+       {"paths": len(rets), "state tested": sorted(dep)})
+    for st in rets:
+        ev = st.events
+        stores = {e[2]: (i, e[3]) for i, e in enumerate(ev) if e[0] == "store" and e[1] == SELF}
+        ck = [(i, e) for i, e in enumerate(ev) if e[0] == "call" and e[2] == "self._compute_kernel"]
+        inner = [(i, e) for i, e in enumerate(ev) if e[0] == "call" and e[2] in ("self.fit", "super().fit") or
+                 (e[0] == "call" and isinstance(e[-1], tuple) and e[-1][:1] == ("method",) and e[-1][2] == "fit" and e[-1][1] != "KernelRIM")]
+        kres = ("callres", ck[0][1][1], "self._compute_kernel", ck[0][1][3], ck[0][1][4]) if ck else None
+        good = (len(ck) == 1 and ck[0][1][3] == (("var", "X"),) and "input_data_" in stores and stores["input_data_"][1] == ("var", "X")
+                and stores["input_data_"][0] < ck[0][0])
+        ob(KernelRIM, "fit", "input_data_ = X is stored before the training kernel _compute_kernel(X) is computed", good)
+        good = bool(good and len(inner) == 1 and inner[0][1][3] == (kres, ("var", "y")) and inner[0][0] > ck[0][0])
+        ob(KernelRIM, "fit", "the linear model is trained on (_compute_kernel(X) of this call, y)", good,
+           {"call": fx.show(inner[0][1])[:200] if inner else None})
+        good = bool(kres is not None and "_training_kernel" in stores and stores["_training_kernel"][1] == kres
+                    and inner and stores["_training_kernel"][0] < inner[0][0])
+        ob(KernelRIM, "fit", "_training_kernel (used by the penalty gradient) is that same kernel, stored before training", good)
+        good = "n_features_in_" in stores and stores["n_features_in_"][1] == ("item", ("attr", ("var", "X"), "shape"), fx.C(1))
+        ob(KernelRIM, "fit", "n_features_in_ = X.shape[1] (the data, not the kernel)", good)
     # Kauri
     it, rets, allp = _one_return(Kauri, "predict", lambda o, m: False)
     for st in rets:
